@@ -60,7 +60,7 @@ Judge(e, W, M, tt, aux, x) ==
                  \cup {p \in {"C09"} : (refresh \/ idem) /\ p \in W}
                  \cup {p \in {"C08"} : echoing /\ p \in W}
                  \cup {p \in {"C06"} : reduced /\ p \in W}
-                 \cup {p \in {"C17"} : p \in W /\ CustomIdx(M) # {}},
+                 \cup {p \in {"C17"} : p \in W /\ HasCustom(M)},
            aux |-> [aux EXCEPT !.rt = IF fromEmpty /\ ~x.pn THEN [armed |-> TRUE, orig |-> x.pobj] ELSE NoRT,
                                !.chain = @ /\ ~x.pn /\ ~HasError(x.dg),
                                !.lastArmed = ~x.pn, !.lastObj = x.pobj,
@@ -92,7 +92,7 @@ Judge(e, W, M, tt, aux, x) ==
                  \cup {p \in {"C07", "C05"} : conforming /\ p \in W}
                  \cup {p \in {"C06"} : p \in W}
                  \cup {p \in {"C08"} : echo3 /\ p \in W}
-                 \cup {p \in {"C17"} : p \in W /\ CustomIdx(M) # {}},
+                 \cup {p \in {"C17"} : p \in W /\ HasCustom(M)},
            aux |-> [aux EXCEPT !.rt = NoRT, !.lastArmed = FALSE,
                                !.memo = IF conforming /\ ~seen /\ ~x.pn /\ "C05" \in W THEN Put(@, key, [res |-> res, tf |-> x.ptf]) ELSE @,
                                !.echo = IF echo1 /\ ~x.pn /\ C08Plan(M, aux.echo.plan) THEN [@ EXCEPT !.st = 2, !.s = x.obj, !.dg = x.dg] ELSE NoEcho]]
